@@ -81,6 +81,15 @@ def handleConcurrent09 (l : Line) : List Verdict :=
        (if crashed > 0 then [("C09.crash_on_tampered", s!"{crashed} concurrent requests answered 5xx")] else [])))
   r.getD [Verdict.bad "concurrent09"]
 
+/-- keys of any other length than 256 bits are unusable: nothing is sealed or opened with them -/
+def handleKeyLen09 (l : Line) : List Verdict :=
+  let r : Option (List Verdict) := do
+    let n ← l.nat? "n"
+    let encok ← l.bool? "encok"
+    let decok ← l.bool? "decok"
+    pure (verdictsOf [] (if n != 32 && (encok || decok) then [("C09.key_separation.bad_key_length_accepted", s!"a {n}-byte key seals={encok} / opens={decok} (padded or truncated to 256 bits)")] else []))
+  r.getD [Verdict.bad "keylen09"]
+
 def handleOutScan (l : Line) : List Verdict :=
   let r : Option (List Verdict) := do
     let found ← l.bool? "found"
